@@ -337,6 +337,16 @@ def r4_load_model_has_effect(ctx):
     ok = bool(effects)
     ctx.check(ok, f.qual + "#effect", "the loaded containers are stored into the running detector" if ok else ("the loaded detector is only bound to the local name `detector`: the running detector is unchanged (dead store)" if rebind else "the loaded detector never reaches the running detector"), where=f, node=(rebind or loaded)[0])
     if ok:
+        # the replacement must not depend on the CONTENT of the loaded container (an empty container
+        # in the file has to replace a filled one in the running detector as well)
+        for e in effects:
+            for t, pol in enclosing_tests(e):
+                tt = norm(t)
+                fine = tt.startswith("hasattr(") or tt.endswith("is not None") or tt.endswith("is None")
+                from sa.astutil import enclosing_loop as _el
+
+                if not fine:
+                    ctx.fail(f.qual + "#unconditional", f"a container is only replaced when `{tt}` holds: an empty (falsy) container in the file does not replace the running detector's content", where=f, node=t)
         # which containers are copied
         names = set()
         for e in effects:
